@@ -401,6 +401,13 @@ Reload(e) ==
     /\ UNCHANGED <<serial, req>>
     /\ out' = <<>>
 
+\* A burst of e.n other clients that are announced and withdrawn at once ("<id> C ..." directly followed by "<id> D",
+\* ids that are not in use): nothing is printed, nothing stays behind - except that iauth_serial has advanced by e.n.
+Burst(e) ==
+    /\ serial' = serial + e.n
+    /\ UNCHANGED <<req, slots>>
+    /\ out' = <<>>
+
 -----------------------------------------------------------------------------
 Step(e) ==
     /\ ev' = e
@@ -418,6 +425,7 @@ Step(e) ==
          [] e.e = "J"  -> Junk(e)
          [] e.e = "QC" -> InfoConfig(e)
          [] e.e = "RL" -> Reload(e)
+         [] e.e = "B"  -> Burst(e)
 
 -----------------------------------------------------------------------------
 (* Invariants of the hold accounting (DESIGN.md 5.2) *)
